@@ -757,7 +757,13 @@ func (in *Interp) instr(act *activation, b *ssa.BasicBlock, ins ssa.Instruction)
 		if m == nil {
 			return
 		}
-		r := in.Narrow(m, "[?]")
+		sel := "[?]"
+		if k := in.val(act, x.Index); k != nil && k.K != nil && k.K.Kind() == constant.String && len(constant.StringVal(k.K)) < 40 {
+			if _, isMap := x.X.Type().Underlying().(*types.Map); isMap {
+				sel = "[k=" + constant.StringVal(k.K) + "]"
+			}
+		}
+		r := in.Narrow(m, sel)
 		if x.CommaOk {
 			r = &Val{Kids: map[string]*Val{"#0": r, "#1": {Deps: in.AllDeps(in.val(act, x.Index))}}}
 		}
